@@ -49,7 +49,7 @@ pub fn lengths() -> Vec<usize> {
 pub fn plan(tier: &str) -> u64 {
     let enumerated = offsets().len() as u64; // one case per start offset
     match tier {
-        "quick" => enumerated + 6 + 24,
+        "quick" => enumerated + 6 + 90,
         _ => enumerated + 30 + 600,
     }
 }
